@@ -103,6 +103,9 @@ def scan(v, offset, info):
         info.add("empty_container")
 
 
+_PRINTERS = {}
+
+
 def evaluate(case):
     import ak.ppobj as P
     mode = case["mode"]
@@ -111,10 +114,23 @@ def evaluate(case):
     info = set([mode])
     scan(value, 0, info)
     try:
-        printer = P.PrettyPrinter(fmt_json=(mode == "json"))
+        # one long-lived printer per mode (the way the package itself uses pp / PPWrap._PPRINTER); the same
+        # value is first rendered with the default colours, then without: the no-colour text must not care
+        printer = _PRINTERS.get(mode)
+        if printer is None or _PRINTERS.get("mod") is not P:
+            _PRINTERS["mod"] = P
+            _PRINTERS["json"] = P.PrettyPrinter(fmt_json=True)
+            _PRINTERS["py"] = P.pp
+            printer = _PRINTERS[mode]
+        if case.get("colored_first", True):
+            colored = str(printer(value))
+        else:
+            colored = None
         res = printer(value, no_color=True)
         text = str(res)
         lines = [ln.plain_text() for ln in printer(value, no_color=True)]
+        if colored is not None and P.CHText.strip_colors(colored) != text:
+            f.append(("colored_output_differs_from_no_color_output", f"{colored[:200]!r} vs {text[:200]!r}"))
     except Exception as e:   # noqa
         return Outcome(True, sorted(info), [("printer_raises_" + type(e).__name__, f"{e}")])
     if "\n".join(lines) != text:
